@@ -265,7 +265,7 @@ def construct(al, enc, layout, form, base="", n=""):
 # --------------------------------------------------------------------------
 # translator comment arrangements: name -> builder(al, enc) -> (lines, required, optional, indent)
 
-ARRANGEMENTS = ["none", "imm", "blank", "text", "stack-tagged", "stack-untagged", "other-construct", "untagged", "tag2", "indented", "wsline"]
+ARRANGEMENTS = ["none", "imm", "blank", "text", "stack-tagged", "stack-untagged", "other-construct", "untagged", "tag2", "indented", "wsline", "continued", "continued-then-comment"]
 
 
 def arrangement(al, enc, name):
@@ -294,6 +294,12 @@ def arrangement(al, enc, name):
         return ["  ##  " + c1], [c1], [], "  "
     if name == "wsline":
         return ["## " + c1, "   "], [], [], ""
+    if name == "continued":
+        # one ## comment continued over a line break with a backslash, immediately before the construct: it is attached
+        # (how the continuation is spelled in the reported comment is not fixed: the tagged first part is demanded)
+        return ["## " + c1 + " \\", w + "more"], [c1], [w + "more", "\\", c1 + " \\"], ""
+    if name == "continued-then-comment":
+        return ["## " + c1 + " \\", w + "more", "## " + c2], [c1, c2], [w + "more", "\\", c1 + " \\"], ""
     raise ValueError(name)
 
 
@@ -772,10 +778,11 @@ def judge(case, obs):
             need = list(e["req"])
             allowed = need + list(e["opt"])
             it = iter(got)
-            in_order = all(any(g == n for g in it) for n in need)
+            pre = e.get("arr", "").startswith("continued")  # a continued comment: the tagged part may carry its continuation
+            in_order = all(any(g == n or (pre and g.startswith(n)) for g in it) for n in need)
             if not in_order:
                 viol.append(("babel:comment-missing:%s" % e["arr"], "translator comment immediately before the construct is attached", need, got))
-            elif any(g not in allowed for g in got) and not some_missing:
+            elif any(g not in allowed and not (pre and any(g.startswith(n) for n in need)) for g in got) and not some_missing:
                 viol.append(("babel:comment-unexpected:%s" % e["arr"], "no other comment is attached", need, got))
         else:
             got = o[3] or ""
